@@ -34,8 +34,9 @@ type val struct {
 	lin  *lin
 	slot int
 	desc string
-	b    bool // for vBool when known
-	bk   bool // bool known
+	b    bool         // for vBool when known
+	bk   bool         // bool known
+	lit  *ast.FuncLit // a local function literal (inlined when called)
 }
 
 func unk(desc string) val { return val{kind: vUnknown, desc: desc} }
@@ -69,6 +70,15 @@ type callRec struct {
 	recv   *val
 	pos    token.Pos
 	seq    int
+	loop   []loopAlt // for callee "<loop>": the alternative iterations of a loop body
+	ret    string    // rendered first result (emission mode)
+}
+
+// loopAlt is one path through a loop body: the conditions taken and the events recorded.
+type loopAlt struct {
+	conds []string
+	calls []callRec
+	exit  string // "", "break", "return"
 }
 
 type assignRec struct {
@@ -92,8 +102,9 @@ type sstate struct {
 	assigns []assignRec
 	maxSlot int // deepest entry slot touched (-1 none)
 	seq     int
-	selVals map[string]val // values of selector expressions fixed by the analysis (decision-table enumeration) or assigned constants
-	rebased string         // non-empty once the stack was truncated to a symbolic level: entry slots are no longer addressable
+	known   map[string]bool // truth of conditions already decided on this path (canonical text)
+	selVals map[string]val  // values of selector expressions fixed by the analysis (decision-table enumeration) or assigned constants
+	rebased string          // non-empty once the stack was truncated to a symbolic level: entry slots are no longer addressable
 	und     []string
 	undPos  []token.Pos
 }
@@ -117,6 +128,12 @@ func (s *sstate) clone() *sstate {
 	o.assigns = append([]assignRec{}, s.assigns...)
 	o.und = append([]string{}, s.und...)
 	o.undPos = append([]token.Pos{}, s.undPos...)
+	if s.known != nil {
+		o.known = map[string]bool{}
+		for k, v := range s.known {
+			o.known[k] = v
+		}
+	}
 	if s.selVals != nil {
 		o.selVals = map[string]val{}
 		for k, v := range s.selVals {
@@ -202,19 +219,24 @@ func (s *sstate) push(v val) {
 // ---------------------------------------------------------------------
 
 type symExec struct {
-	c        *Ctx
-	p        *packages.Package
-	info     *types.Info
-	stackFld *types.Var // py.Frame.Stack
-	maxPaths int
-	depth    int
-	inStack  []*types.Func
-	stackWriters map[*types.Func]bool
+	c               *Ctx
+	p               *packages.Package
+	info            *types.Info
+	stackFld        *types.Var // py.Frame.Stack
+	maxPaths        int
+	depth           int
+	inStack         []*types.Func
+	stackWriters    map[*types.Func]bool
 	vmName, argName string // canonical names of handler params
-	params   map[types.Object]string
-	overflow bool
-	inlineMemo map[*types.Func]bool
-	inlineAll  bool
+	params          map[types.Object]string
+	overflow        bool
+	inlineMemo      map[*types.Func]bool
+	inlineAll       bool
+	primitive       map[*types.Func]bool // never inlined: recorded as events
+	noRet           map[*types.Func]int  // 1 = never returns (every path panics), 2 = returns
+	emitMode        bool                 // record loops as structured events, name labels
+	rangeBind       map[types.Object]val
+	labelN          int
 }
 
 type pathResult struct {
@@ -590,14 +612,30 @@ func (se *symExec) execAssign(x *ast.AssignStmt, st *sstate) []*sstate {
 // canon renders an expression with the handler's parameter names normalised.
 func (se *symExec) canon(e ast.Expr) string {
 	s := exprStr(e)
+	repl := map[string]string{}
 	ast.Inspect(e, func(n ast.Node) bool {
 		if id, ok := n.(*ast.Ident); ok {
-			if nm, ok := se.params[se.info.Uses[id]]; ok {
-				s = replaceIdent(s, id.Name, nm)
+			if nm, ok := se.params[se.info.Uses[id]]; ok && nm != id.Name {
+				repl[id.Name] = nm
 			}
 		}
 		return true
 	})
+	if len(repl) == 0 {
+		return s
+	}
+	// two-phase replacement so that a replacement text is never rewritten again
+	i := 0
+	ph := map[string]string{}
+	for name, nm := range repl {
+		p := fmt.Sprintf("\x00%d\x00", i)
+		i++
+		s = replaceIdent(s, name, p)
+		ph[p] = nm
+	}
+	for p, nm := range ph {
+		s = strings.ReplaceAll(s, p, nm)
+	}
 	return s
 }
 
@@ -613,7 +651,14 @@ func (se *symExec) assignTo(lhs ast.Expr, v val, st *sstate, pos token.Pos, src 
 			obj = se.info.Uses[l]
 		}
 		if obj != nil {
+			if len(st.known) > 0 {
+				st.forget(l.Name)
+				if nm, ok := se.params[obj]; ok {
+					st.forget(nm)
+				}
+			}
 			st.vars[obj] = v
+			se.nameByDesc(obj, v)
 		}
 		return
 	case *ast.SelectorExpr:
@@ -780,6 +825,7 @@ func (se *symExec) eval(e ast.Expr, st *sstate) []ev {
 			if se.touchesStack(fl.Body) {
 				st.undecided(fl.Pos(), "closure manipulates the evaluation stack")
 			}
+			return one(st, val{kind: vUnknown, desc: "funclit", lit: fl})
 		}
 		return one(st, unk("lit"))
 	case *ast.Ident:
@@ -820,6 +866,8 @@ func (se *symExec) eval(e ast.Expr, st *sstate) []ev {
 			d := se.canon(x)
 			if r.v.kind == vSlot {
 				d = fmt.Sprintf("slot%d.%s", r.v.slot, x.Sel.Name)
+			} else if se.emitMode && r.v.kind == vUnknown && r.v.desc != "" && r.v.desc != "lit" {
+				d = r.v.desc + "." + x.Sel.Name
 			}
 			out = append(out, ev{r.st, se.symInt(e, unk(d))})
 		}
@@ -871,7 +919,18 @@ func (se *symExec) eval(e ast.Expr, st *sstate) []ev {
 		var out []ev
 		for _, b := range se.eval(x.X, st) {
 			for _, r := range se.eval(x.Index, b.st) {
-				out = append(out, ev{r.st, unk(se.canon(x))})
+				d := se.canon(x)
+				if se.emitMode && b.v.kind == vUnknown && b.v.desc != "" {
+					ix := r.v.String()
+					if r.v.kind == vInt && !r.v.lin.isConst() {
+						ix = "*" // an element selected by a loop index
+						if s, ok := r.v.lin.singleSym(); !ok || !strings.HasPrefix(s, "loop:") {
+							ix = r.v.lin.String()
+						}
+					}
+					d = b.v.desc + "[" + ix + "]"
+				}
+				out = append(out, ev{r.st, se.symInt(e, unk(d))})
 			}
 		}
 		return out
@@ -1002,6 +1061,38 @@ func (se *symExec) binop(x *ast.BinaryExpr, l, r val) val {
 	return unk(se.canon(x))
 }
 
+// posForm gives a canonical positive form of a condition text and whether the text asserts it.
+//
+//	a != b  ->  (a == b, false);   a == b -> (a == b, true);   x -> (x, true)
+func posForm(c string) (string, bool) {
+	if i := strings.Index(c, " != "); i > 0 && !strings.Contains(c, "&&") && !strings.Contains(c, "||") {
+		return c[:i] + " == " + c[i+4:], false
+	}
+	return c, true
+}
+
+// forget drops decided conditions that mention a reassigned variable.
+func (s *sstate) forget(name string) {
+	for k := range s.known {
+		if containsIdent(k, name) {
+			delete(s.known, k)
+		}
+	}
+}
+
+func containsIdent(s, name string) bool {
+	for i := 0; i+len(name) <= len(s); i++ {
+		if s[i:i+len(name)] == name {
+			before := i == 0 || !isIdentChar(s[i-1])
+			after := i+len(name) >= len(s) || !isIdentChar(s[i+len(name)])
+			if before && after {
+				return true
+			}
+		}
+	}
+	return false
+}
+
 func nonNegSym(s string) bool {
 	if strings.HasPrefix(s, "len(") {
 		return true
@@ -1013,9 +1104,10 @@ func nonNegSym(s string) bool {
 }
 
 // bitsSym gives the canonical name of a bit-field of a symbol.
-//   s & m        -> bits(s,0,m)
-//   s >> k       -> bits(s,k,-1)
-//   bits(s,k,-1) & m -> bits(s,k,m)
+//
+//	s & m        -> bits(s,0,m)
+//	s >> k       -> bits(s,k,-1)
+//	bits(s,k,-1) & m -> bits(s,k,m)
 func bitsSym(s string, op token.Token, c int64) string {
 	base, shift, mask := s, int64(0), int64(-1)
 	if strings.HasPrefix(s, "bits(") {
@@ -1126,7 +1218,60 @@ func (se *symExec) branch(cond ast.Expr, st *sstate) (tr, fa []*sstate) {
 			}
 			continue
 		}
+		if b, ok := cond.(*ast.BinaryExpr); ok && (b.Op == token.EQL || b.Op == token.NEQ) && r.v.kind == vBool && r.v.lin != nil {
+			// decided by what the path already knows?
+			known, isEq := false, false
+			red := reduceWith(r.v.lin, r.st.eqs)
+			if red.isConst() {
+				known, isEq = true, red.c == 0
+			} else {
+				for _, n := range r.st.nes {
+					if n.equal(r.v.lin) || n.equal(r.v.lin.scale(-1)) {
+						known, isEq = true, false
+					}
+				}
+			}
+			if known {
+				if isEq == (b.Op == token.EQL) {
+					tr = append(tr, r.st)
+				} else {
+					fa = append(fa, r.st)
+				}
+				continue
+			}
+		}
+		// a condition already decided on this path (and whose operands were not reassigned since)
+		if se.emitMode {
+			key, pos := posForm(se.canon(cond))
+			if v, ok := r.st.known[key]; ok {
+				if v == pos {
+					tr = append(tr, r.st)
+				} else {
+					fa = append(fa, r.st)
+				}
+				continue
+			}
+		}
 		t, f := r.st, r.st.clone()
+		if se.emitMode {
+			key, pos := posForm(se.canon(cond))
+			if t.known == nil {
+				t.known = map[string]bool{}
+			}
+			if f.known == nil {
+				f.known = map[string]bool{}
+			}
+			t.known[key] = pos
+			f.known[key] = !pos
+		}
+		if id := identOf(cond); id != nil {
+			if obj := se.info.Uses[id]; obj != nil {
+				if bt, ok := obj.Type().Underlying().(*types.Basic); ok && bt.Kind() == types.Bool {
+					t.vars[obj] = val{kind: vBool, bk: true, b: true}
+					f.vars[obj] = val{kind: vBool, bk: true, b: false}
+				}
+			}
+		}
 		cs := se.canon(cond)
 		t.conds = append(t.conds, cs)
 		f.conds = append(f.conds, "!("+cs+")")
@@ -1242,6 +1387,16 @@ func (se *symExec) execSwitch(x *ast.SwitchStmt, st *sstate) (fall []*sstate, re
 							}
 							continue
 						}
+						// contradicts an earlier disequality?
+						excluded := false
+						for _, n := range remaining.nes {
+							if n.equal(d) || n.equal(d.scale(-1)) {
+								excluded = true
+							}
+						}
+						if excluded {
+							continue
+						}
 						// contradicts an earlier equality?
 						red := reduceWith(d, remaining.eqs)
 						if red.isConst() {
@@ -1316,6 +1471,7 @@ func (se *symExec) execTypeSwitch(x *ast.TypeSwitchStmt, st *sstate) (fall []*ss
 				s := r.st.clone()
 				if obj := se.info.Implicits[cc]; obj != nil {
 					s.vars[obj] = r.v
+					se.nameByDesc(obj, r.v)
 				}
 				lbl := "default"
 				if cc.List != nil {
@@ -1446,15 +1602,48 @@ func (se *symExec) execRange(x *ast.RangeStmt, st *sstate) (fall []*sstate, rets
 		st.undecided(x.Pos(), "range operand forks")
 		return []*sstate{st}, nil
 	}
-	return se.loopCommon(x.Pos(), x.Body, x, rs[0].st, nil, nil)
+	entry := rs[0].st
+	se.rangeBind = nil
+	if se.emitMode {
+		// bind key and value variables: key = loop index, value = element "X[*]"
+		xd := rs[0].v.desc
+		if rs[0].v.kind != vUnknown || xd == "" {
+			xd = se.canon(x.X)
+		}
+		bind := map[types.Object]val{}
+		if id := identOf(x.Key); id != nil && id.Name != "_" {
+			if o := se.info.Defs[id]; o != nil {
+				bind[o] = val{kind: vInt, lin: linSym("loop:" + id.Name + "@" + xd)}
+			}
+		}
+		if id := identOf(x.Value); id != nil && id.Name != "_" {
+			if o := se.info.Defs[id]; o != nil {
+				bind[o] = unk(xd + "[*]")
+			}
+		}
+		se.rangeBind = bind
+	}
+	return se.loopCommon(x.Pos(), x.Body, x, entry, nil, nil)
 }
 
 func (se *symExec) loopCommon(pos token.Pos, body *ast.BlockStmt, whole ast.Node, entry *sstate, trips *lin, rets []pathResult) ([]*sstate, []pathResult) {
 	// havoc every variable assigned in the loop
 	hav := entry.clone()
 	for _, o := range se.assignedIn(whole) {
-		hav.vars[o] = unk("loopvar")
+		hav.vars[o] = unk("loop:" + o.Name())
 	}
+	for _, o := range se.assignedIn(whole) {
+		hav.forget(o.Name())
+	}
+	for o, v := range se.rangeBind {
+		hav.vars[o] = v
+		se.nameByDesc(o, v)
+		hav.forget(o.Name())
+		hav.forget(v.desc)
+	}
+	se.rangeBind = nil
+	nCallsEntry := len(entry.calls)
+	nCondsEntry := len(entry.conds)
 	wasConc := hav.conc
 	h0 := hav.h.clone()
 	lc := &loopCtl{}
@@ -1485,6 +1674,28 @@ func (se *symExec) loopCommon(pos token.Pos, body *ast.BlockStmt, whole ast.Node
 	after := entry.clone()
 	for _, o := range se.assignedIn(whole) {
 		after.vars[o] = unk("after-loop")
+	}
+	if se.emitMode {
+		var alts []loopAlt
+		add := func(e *sstate, exit string) {
+			alts = append(alts, loopAlt{conds: append([]string{}, e.conds[nCondsEntry:]...), calls: append([]callRec{}, e.calls[nCallsEntry:]...), exit: exit})
+		}
+		for _, e := range ends {
+			add(e, "")
+		}
+		for _, b := range lc.breaks {
+			add(b, "break")
+		}
+		for _, rr := range r {
+			add(rr.st, "return")
+		}
+		after.seq++
+		after.calls = append(after.calls, callRec{callee: "<loop>", pos: pos, seq: after.seq, loop: alts, args: []val{unk(se.loopHeader(whole))}})
+		for _, e := range ends {
+			after.und = append(after.und, e.und[len(entry.und):]...)
+			after.undPos = append(after.undPos, e.undPos[len(entry.undPos):]...)
+		}
+		return []*sstate{after}, rets
 	}
 	// keep the records of one representative iteration so that operand roles inside loops are visible
 	if len(ends) > 0 {
@@ -1521,6 +1732,19 @@ func (se *symExec) loopCommon(pos token.Pos, body *ast.BlockStmt, whole ast.Node
 		_ = b
 	}
 	return out, rets
+}
+
+// loopHeader renders what a loop iterates over.
+func (se *symExec) loopHeader(n ast.Node) string {
+	switch x := n.(type) {
+	case *ast.RangeStmt:
+		return "range " + se.canon(x.X)
+	case *ast.ForStmt:
+		if x.Cond != nil {
+			return "for " + se.canon(x.Cond)
+		}
+	}
+	return "for"
 }
 
 // evalCallMulti evaluates a call and returns, per path, the state and the result values.
@@ -1582,7 +1806,22 @@ func (se *symExec) evalCallMulti(call *ast.CallExpr, st *sstate) []pathResult {
 	var out []pathResult
 	for _, c := range cur {
 		// inline functions of package vm
-		if fn != nil && fn.Pkg() == se.p.Types && se.worthInlining(fn) {
+		if fn == nil {
+			// a call of a local function literal: inline it
+			if id := identOf(call.Fun); id != nil {
+				if fv, ok := c.st.vars[se.info.Uses[id]]; ok && fv.lit != nil && len(se.inStack) < 8 {
+					out = append(out, se.inlineLit(fv.lit, c.args, c.st, call)...)
+					continue
+				}
+			}
+		}
+		if fn != nil && se.neverReturns(fn) {
+			name := FuncID(fn)
+			c.st.seq++
+			c.st.calls = append(c.st.calls, callRec{callee: name, args: c.args, recv: c.recv, pos: call.Pos(), seq: c.st.seq})
+			continue // the path ends here (panics)
+		}
+		if fn != nil && fn.Pkg() == se.p.Types && !se.primitive[fn] && se.worthInlining(fn) {
 			if fd := se.c.Decl(fn); fd != nil && fd.Body != nil && len(se.inStack) < 8 && !se.onStack(fn) {
 				out = append(out, se.inline(fn, fd, c.recv, c.args, c.st, call)...)
 				continue
@@ -1603,6 +1842,11 @@ func (se *symExec) evalCallMulti(call *ast.CallExpr, st *sstate) []pathResult {
 		var rets []val
 		for i := 0; i < nres; i++ {
 			rets = append(rets, unk(fmt.Sprintf("%s#%d", name, i)))
+		}
+		if fn != nil && se.emitMode && fn.Name() == "NewLabel" && nres == 1 {
+			se.labelN++
+			rets[0] = unk(fmt.Sprintf("L%d", se.labelN))
+			c.st.calls[len(c.st.calls)-1].ret = rets[0].desc
 		}
 		if fn != nil {
 			sig := fn.Type().(*types.Signature)
@@ -1736,6 +1980,7 @@ func (se *symExec) inline(fn *types.Func, fd *ast.FuncDecl, recv *val, args []va
 		for _, id := range f.Names {
 			if i < len(args) {
 				bind(id, args[i])
+				se.nameByDesc(se.info.Defs[id], args[i])
 				if i < len(call.Args) {
 					if aid := identOf(call.Args[i]); aid != nil {
 						if nm, ok := se.params[se.info.Uses[aid]]; ok {
@@ -1761,6 +2006,82 @@ func (se *symExec) inline(fn *types.Func, fd *ast.FuncDecl, recv *val, args []va
 	res := se.execBody(fd.Body, st)
 	loopStack = saveLoops
 	se.inStack = se.inStack[:len(se.inStack)-1]
+	return res
+}
+
+// nameByDesc: in emission mode a local that holds an access path into the AST is rendered as that path.
+func (se *symExec) nameByDesc(obj types.Object, v val) {
+	if !se.emitMode || obj == nil {
+		return
+	}
+	if v.kind == vUnknown && v.desc != "" && v.lit == nil && (strings.HasPrefix(v.desc, "node") || strings.HasPrefix(v.desc, "{node")) {
+		se.params[obj] = v.desc
+	} else if _, ok := se.params[obj]; ok && v.kind != vUnknown {
+		delete(se.params, obj)
+	}
+}
+
+// neverReturns: the function has no return statement and its body ends in panic (e.g. panicSyntaxErrorf).
+func (se *symExec) neverReturns(fn *types.Func) bool {
+	if se.noRet == nil {
+		se.noRet = map[*types.Func]int{}
+	}
+	if v, ok := se.noRet[fn]; ok {
+		return v == 1
+	}
+	se.noRet[fn] = 2
+	fd := se.c.Decl(fn)
+	if fd == nil || fd.Body == nil || len(fd.Body.List) == 0 {
+		return false
+	}
+	hasRet := false
+	ast.Inspect(fd.Body, func(n ast.Node) bool {
+		if _, ok := n.(*ast.ReturnStmt); ok {
+			hasRet = true
+		}
+		if _, ok := n.(*ast.FuncLit); ok {
+			return false
+		}
+		return true
+	})
+	info := se.c.DeclPkg(fn).TypesInfo
+	last := fd.Body.List[len(fd.Body.List)-1]
+	if es, ok := last.(*ast.ExprStmt); ok && !hasRet {
+		if call, ok := es.X.(*ast.CallExpr); ok && isBuiltinCall(info, call, "panic") {
+			se.noRet[fn] = 1
+			return true
+		}
+	}
+	return false
+}
+
+// inlineLit runs a local function literal with the given argument values.
+func (se *symExec) inlineLit(fl *ast.FuncLit, args []val, st *sstate, call *ast.CallExpr) []pathResult {
+	i := 0
+	for _, f := range fl.Type.Params.List {
+		for _, id := range f.Names {
+			if obj := se.info.Defs[id]; obj != nil && i < len(args) {
+				v := args[i]
+				if _, variadic := f.Type.(*ast.Ellipsis); variadic && !call.Ellipsis.IsValid() {
+					// individual arguments gathered into the variadic slice
+					var ds []string
+					for _, a := range args[i:] {
+						ds = append(ds, a.String())
+					}
+					v = unk("{" + strings.Join(ds, ",") + "}")
+				}
+				st.vars[obj] = v
+				se.nameByDesc(obj, v)
+			}
+			i++
+		}
+	}
+	saveLoops := loopStack
+	loopStack = nil
+	se.inStack = append(se.inStack, nil)
+	res := se.execBody(fl.Body, st)
+	se.inStack = se.inStack[:len(se.inStack)-1]
+	loopStack = saveLoops
 	return res
 }
 
@@ -1856,6 +2177,9 @@ func (se *symExec) evalBuiltin(name string, call *ast.CallExpr, st *sstate) []pa
 		return out
 	case "panic":
 		return nil
+	case "new":
+		se.labelN++
+		return []pathResult{{st, []val{unk(fmt.Sprintf("L%d", se.labelN))}}}
 	case "copy":
 		// copy(dst, src): dst now holds src's elements
 		var out []pathResult
